@@ -173,7 +173,7 @@ func init() {
 			// cursors: Start restores them from split states; assignShards uses them
 		}})
 
-	register(&Obligation{ID: "C16.e", Props: []string{"C16"}, Template: "must-precede+value-identity",
+	register(&Obligation{ID: "C16.e", Props: []string{"C16", "C01"}, Template: "must-precede+value-identity",
 		Desc: "kinesis.(*SourceSplitter).assignShards sends the assignment and then records exactly those shards as assigned; Start hands restored shards to the assignment once (it does not concatenate two overlapping sources); every assigned split carries its restored cursor",
 		Run: func(r *Run) {
 			f := r.P.Func("connectors/kinesis", "(*SourceSplitter).assignShards")
